@@ -185,7 +185,16 @@ func (c *c11) emitBuild(p protocol.Protocol, cfg, label, info string, br buildRe
 	}
 	c.r.Count("build:"+strings.SplitN(label, ":", 2)[0], outcome)
 	c.r.Count("build-config", cfg+":"+outcome)
-	c.r.Add(c.gb, emit.App("Build_bcase", world.ProtoGallina(p), info, view, parsed, emit.Bool(br.pan != "")), desc, label+"|"+cfg+"|"+info[:min(len(info), 4000)], true)
+	bytesG, validG := "None", "[]"
+	if view != "None" {
+		bytesG = "(Some " + emit.Hex(br.req) + ")"
+		var vs []string
+		for _, v := range world.PatchVerdicts(br.req) {
+			vs = append(vs, emit.Bool(v))
+		}
+		validG = emit.List(vs)
+	}
+	c.r.Add(c.gb, emit.App("Build_bcase", world.ProtoGallina(p), info, view, parsed, emit.Bool(br.pan != ""), bytesG, validG), desc, label+"|"+cfg+"|"+info[:min(len(info), 4000)], true)
 }
 
 type clockTV struct{ now int64 }
